@@ -525,6 +525,23 @@ func TestVerifRedis(t *testing.T) {
 			}
 		}
 	}
+	// ---- an entry that reaches a router's memory cache late in its life (promotion from redis 4 s after the fetch) still ends with
+	// the lifetime counted from the fetch, not from the promotion
+	if prop == "C08" {
+		step("A fetches late1; B asks it 4 s later (promotion) and again after lifetime + 2.3 s")
+		l1 := ask(A, N("late1", "test"), 1)
+		lateFetched := time.Now()
+		serL := serialOf(l1)
+		time.Sleep(4 * time.Second)
+		l2 := ask(B, N("late1", "test"), 1)
+		if d := time.Until(lateFetched.Add(8300 * time.Millisecond)); d > 0 {
+			time.Sleep(d)
+		}
+		// (judged only if the 4 s lookup really was answered with the old answer, and only that answer: a refresh may have stored a newer one)
+		if l3 := ask(B, N("late1", "test"), 1); l1 != nil && l2 != nil && serialOf(l2) == serL && l3 != nil && serialOf(l3) == serL {
+			fail("served-after-lifetime", fmt.Sprintf("at least 8.3 s after a ttl 6 answer was fetched router B, which took it over from redis when it was 4 s old, still served it (serial %d)", serL))
+		}
+	}
 	// ---- what was written to redis
 	rd.mu.Lock()
 	sets := append([]vredisSet(nil), rd.sets...)
@@ -544,7 +561,7 @@ func TestVerifRedis(t *testing.T) {
 			fail("stored-without-lifetime", desc)
 		case strings.Contains(k, "zttl") && s.px > 1000:
 			fail("lifetime-too-long", "a ttl 0 answer (cached for at most 1 s): "+desc)
-		case strings.Contains(k, "pos") && s.px > 6000:
+		case (strings.Contains(k, "pos") || strings.Contains(k, "late")) && s.px > 6000:
 			fail("lifetime-too-long", "a ttl 6 answer: "+desc)
 		case strings.Contains(k, "nx1") && s.px > 30000:
 			fail("lifetime-too-long", "an NXDOMAIN answer (at most 30 s): "+desc)
